@@ -532,6 +532,41 @@ func runCode128Product() {
 		})
 }
 
+// runEveryByte: every byte value alone and in five contexts, and byte pairs, through every writer
+// (table lookups indexed by a character are where a single value can misbehave).
+func runEveryByte() {
+	ctx := []string{"%s", "A%s", "%sA", "1%s1", "a%s", "%s%s", "A1%s"}
+	firsts := []int{'0', '9', 'A', 'Z', 'a', 'z', ' ', '$', '*', '`', '_', '~', 0x00, 0x1f, 0x7f, 0x80, 0xe9, 0xf1, 0xff}
+	n := 256
+	chk.Range(fmt.Sprintf("every writer x every byte value 0..255 in %d contexts (alone, after/before a letter, between digits, after a lower-case letter, doubled, after letter+digit) x {as a raw byte, as the rune of that value}; byte pairs: first byte from %d class representatives (thorough: all 256) x every second byte", len(ctx), len(firsts)), n,
+		func(i int) string { return fmt.Sprintf("byte %#02x", i) },
+		func(l *mc.Local, i int) {
+			forms := []string{string([]byte{byte(i)}), string(rune(i))}
+			for _, wd := range writers {
+				for _, f := range forms {
+					for _, c := range ctx {
+						content := strings.ReplaceAll(c, "%s", f)
+						cc := concrete{wd: wd, format: wd.format, content: content, w: 0, h: 0, hints: map[gozxing.EncodeHintType]interface{}{}, labels: map[string]string{"content": fmt.Sprintf("%q", content)}}
+						run(l, cc, "byte")
+					}
+				}
+				var fs []int
+				if chk.Quick() {
+					fs = firsts
+				} else {
+					for a := 0; a < 256; a++ {
+						fs = append(fs, a)
+					}
+				}
+				for _, a := range fs {
+					content := string([]byte{byte(a), byte(i)})
+					cc := concrete{wd: wd, format: wd.format, content: content, w: 0, h: 0, hints: map[gozxing.EncodeHintType]interface{}{}, labels: map[string]string{"content": fmt.Sprintf("%q", content)}}
+					run(l, cc, "pair")
+				}
+			}
+		})
+}
+
 func runShortStrings() {
 	// every writer x all strings of length <= 2 (quick) / 3 over a class alphabet, default call otherwise
 	alpha := []string{"0", "7", "A", "D", "a", "*", "$", "+", "%", "/", "-", ".", " ", ":", "\x00", "\x1d", "\x7f", "ñ", "é", "\xff", "日"}
@@ -574,6 +609,7 @@ func main() {
 		replay(axes)
 		chk.Finish()
 	}
+	runEveryByte()
 	runShortStrings()
 	runCode128Product()
 	runMarginProduct()
